@@ -678,23 +678,15 @@ func errKind(err error) string {
 	return fmt.Sprintf("%T", err)
 }
 
-// devClass names the two input classes on which the unchanged tree is known to
-// deviate (see proposed_findings/C27.json); their disagreements are reported
-// with a per-era cap so that they cannot crowd any other disagreement out of
-// the reporter's budget. "" = no such class.
+// devClass names the input class on which the unchanged tree is known to
+// deviate (F-C27-b: a non-zero mint under the all-zero policy id); its
+// disagreements are reported with a per-era cap so that they cannot crowd any
+// other disagreement out of the reporter's budget. "" = no such class.
 func devClass(r *row, v *variant) string {
-	var c []string
-	if (v.pol == "zero" || v.pol == "zeroname") && (r.usesAssets() || v.zeroes) {
-		c = append(c, "zeropolicy")
+	if (v.pol == "zero" || v.pol == "zeroname") && r.Mint != 0 {
+		return "zeropolicy"
 	}
-	n := map[string]int{}
-	for _, k := range r.Certs {
-		n[k]++
-	}
-	if n["poolreg_newA"] > 1 || n["poolreg_newB"] > 1 {
-		c = append(c, "duppool")
-	}
-	return strings.Join(c, "+")
+	return ""
 }
 
 var perClassCap = 6
